@@ -319,6 +319,7 @@ type c02RW struct {
 	onCode func(code int)
 	cn     chan bool
 	point  bool // shared scenarios: handing the body to the client is a point other requests can precede
+	slow   func() // shared scenarios, slow client: called before the body is accepted; blocks
 }
 
 func (w *c02RW) Header() http.Header {
@@ -341,6 +342,9 @@ func (w *c02RW) WriteHeader(code int) {
 func (w *c02RW) Write(p []byte) (int, error) {
 	if w.point {
 		vfs.Point("client:write")
+	}
+	if w.slow != nil {
+		w.slow()
 	}
 	if w.code == 0 {
 		w.WriteHeader(200)
@@ -911,6 +915,9 @@ type c02Shared struct {
 	// a filesystem-like point of its own ("client:write", just before the body is handed over).
 	YGet bool `json:"y_get,omitempty"`
 	XGet bool `json:"x_get,omitempty"`
+	// Slow: the client of a GET is slow - its connection accepts the body only after the other
+	// request has been answered (X = GET: Y is started at the latest when X begins to write)
+	Slow bool `json:"slow_client,omitempty"`
 	Serialize bool   `json:"serialize"`
 	K         int    `json:"k"`
 	Bound     int    `json:"bound"`
@@ -923,6 +930,9 @@ func (c c02Shared) name() string {
 	}
 	if c.YGet {
 		n += " Y=GET"
+	}
+	if c.Slow {
+		n += " slow-client"
 	}
 	return n
 }
@@ -1037,6 +1047,9 @@ func c02SharedRun(r *vrep.Report, base string, c c02Shared) (int, int64) {
 				rw := &c02RW{onCode: func(code int) { codeY = code }}
 				if c.YGet {
 					rw.point = true
+					if c.Slow {
+						rw.slow = func() { vsched.WaitUntil("slow client of Y", func() bool { return codeX != 0 || retX }) }
+					}
 					getY = rw
 					e.rtr.ServeHTTP(rw, httptest.NewRequest("GET", "/"+HW, nil))
 				} else {
@@ -1059,6 +1072,16 @@ func c02SharedRun(r *vrep.Report, base string, c c02Shared) (int, int64) {
 			rw := &c02RW{onCode: func(code int) { codeX = code; npts = len(vfs.ExecPoints()) }}
 			if c.XGet {
 				rw.point = true
+				if c.Slow {
+					rw.slow = func() {
+						if !started {
+							startY()
+						}
+						if !c.YGet {
+							vsched.WaitUntil("slow client of X", func() bool { return codeY != 0 || retY })
+						}
+					}
+				}
 				getX = rw
 				e.rtr.ServeHTTP(rw, httptest.NewRequest("GET", "/"+HW, nil))
 			} else {
@@ -1175,6 +1198,8 @@ func c02SharedScenarios() []c02Shared {
 					if sy == 5 {
 						out = append(out, c02Shared{Kind: "shared", Prelude: pre, SizeY: sy, Serialize: ser, Bound: bound, YGet: true})
 						out = append(out, c02Shared{Kind: "shared", Prelude: pre, SizeY: sy, Serialize: ser, Bound: bound, XGet: true})
+						out = append(out, c02Shared{Kind: "shared", Prelude: pre, SizeY: sy, Serialize: ser, Bound: bound, YGet: true, Slow: true})
+						out = append(out, c02Shared{Kind: "shared", Prelude: pre, SizeY: sy, Serialize: ser, Bound: bound, XGet: true, Slow: true})
 						if !ser {
 							out = append(out, c02Shared{Kind: "shared", Prelude: pre, SizeY: sy, Serialize: ser, Bound: bound, XGet: true, YGet: true})
 						}
